@@ -19,7 +19,7 @@ PROPERTIES = ["C04"]
 CLAUSE_PROPS = {"raw-exception": "C07", "error-code": "C07", "ctx-attrs": "C03", "ctx-function": "C03"}
 
 SPEC = {
-    "runs": {"quick": 500, "thorough": 50000},
+    "runs": {"quick": 500, "thorough": 20000},
     "wall": {"quick": 600, "thorough": 7200},
     "chunk": 10,
     "level": "exploration",
